@@ -114,7 +114,8 @@ func (k Keeper) clearExchangeRates(ctx sdk.Context, pairVotes map[asset.Pair]typ
 	for _, key := range k.ExchangeRates.Iterate(ctx, collections.Range[asset.Pair]{}).Keys() {
 		_, isValid := pairVotes[key]
 		previousExchangeRate, _ := k.ExchangeRates.Get(ctx, key)
-		isExpired := previousExchangeRate.CreatedBlock+params.ExpirationBlocks <= uint64(ctx.BlockHeight())
+		height := uint64(ctx.BlockHeight())
+		isExpired := height >= previousExchangeRate.CreatedBlock && height-previousExchangeRate.CreatedBlock >= params.ExpirationBlocks
 
 		if isValid || isExpired {
 			err := k.ExchangeRates.Delete(ctx, key)
